@@ -33,6 +33,7 @@ def scenarios(tier):
                 continue
             out.append(dict(name=f"e2e-{adv}-{'cont' if cont else 'disc'}", fn="e2e", params=dict(adv=adv, cont=cont, nsteps=4 if q else 5, off=(250 if adv == "RK2" else 0)), cost=20))
             if adv == "EF" and not cont:
+                out.append(dict(name="e2e-EF-disc-vertadv", fn="e2e", params=dict(adv=adv, cont=cont, nsteps=3, off=0, vertadv=True), cost=25))
                 out.append(dict(name="e2e-EF-disc-offgrid", fn="e2e", params=dict(adv=adv, cont=cont, nsteps=4 if q else 5, off=599), cost=20))
     for part in ((3,), (2, 1), (1, 2), (1, 1, 1)):
         out.append(dict(name=f"forcing-mirror-{'_'.join(map(str, part))}", fn="fmirror", params=dict(part=list(part)), cost=5))
@@ -43,7 +44,7 @@ def _uval(W, m, k, sign):
     return sign * W.frac((m + 3) * (3 * k + 1), 300)
 
 
-def _forcing_files(W, d, S, rev):
+def _forcing_files(W, d, S, rev, vertadv=False):
     """frames at simulation steps FRAMES; reversed run: physical time S - m dt, values u_m; forward mirror: S + m dt, values -u_m"""
     d.mkdir(exist_ok=True)
     ones = [[1] * L for _ in range(M)]
@@ -58,7 +59,11 @@ def _forcing_files(W, d, S, rev):
         u = [[[[_uval(W, m, k, val) for i in range(L - 1)] for j in range(M)] for k in range(N)] for m in ms]
         v = [[[[0 for i in range(L)] for j in range(M - 1)] for k in range(N)] for m in ms]
         temp = [[[[_uval(W, m, k, 1) * 10 for i in range(L)] for j in range(M)] for k in range(N)] for m in ms]
-        fs = romsfile.forcing_vars([S + sgn * m * DT - romsfile.REFSEC for m in ms], u, v, extra=dict(temp=temp))
+        extra = dict(temp=temp)
+        if vertadv:
+            # vertical velocity: like u and v it changes sign in the mirrored forward set-up
+            extra["w"] = [[[[_uval(W, m, k, val) / 10 for i in range(L)] for j in range(M)] for k in range(N)] for m in ms]
+        fs = romsfile.forcing_vars([S + sgn * m * DT - romsfile.REFSEC for m in ms], u, v, extra=extra)
         dims = dict(fs[0], xi_rho=L, eta_rho=M, xi_u=L - 1, eta_u=M, xi_v=L, eta_v=M - 1, s_rho=N)
         W.nc_file(d / f"f_{fi:03d}.nc", dims, fs[1])
 
@@ -73,6 +78,11 @@ def _run(W, d, S, rev, rows, p, per):
     cfg["grid"] = dict(module="ladim.ROMS", filename=str(d / "grid.nc"))
     cfg["forcing"] = dict(module="ladim.ROMS", filename=str(d / "f_*.nc"), extra_forcing=["temp"])
     cfg["ibm"] = dict()
+    if p.get("vertadv"):
+        cfg["forcing"]["extra_forcing"] = ["temp", "w"]
+        cfg["state"]["instance_variables"]["w"] = float
+        cfg["state"]["default_values"]["w"] = 0
+        cfg["tracker"]["vertical_advection"] = True
     if p["cont"]:
         cfg["release"].update(continuous=True, release_frequency=2 * DT)
     run_main(W, cfg)
@@ -91,8 +101,8 @@ def e2e(W, p):
     rows = [(0, W.frac(11, 4), 3, za, 0), (r1, W.frac(13, 5), W.frac(5, 2), zb, off)]
     if p["cont"] and p.get("onerow"):
         rows = rows[:1]
-    _forcing_files(W, tmp / "R", S, True)
-    _forcing_files(W, tmp / "F", S, False)
+    _forcing_files(W, tmp / "R", S, True, vertadv=p.get("vertadv", False))
+    _forcing_files(W, tmp / "F", S, False, vertadv=p.get("vertadv", False))
     R = _run(W, tmp / "R", S, True, rows, p, per)
     F = _run(W, tmp / "F", S, False, rows, p, per)
     conds = []
